@@ -926,8 +926,105 @@ fn run_tags(ctx: &mut Ctx) {
     ctx.log.count_n("c11:tags", n);
 }
 
+/// C08 through the codec: a FETCH response whose literal holds protocol look-alikes, followed by
+/// further responses, under chunkings that cut inside the literal after the look-alike
+fn run_c08_codec(ctx: &mut Ctx, rng: &mut Rng, resp: &[Vec<u8>], thorough: bool, shards: usize) {
+    const LOOKALIKES: &[&[u8]] = &[
+        b"{5}\r\n",
+        b"{100000}\r\n",
+        b"{4294967295}\r\n",
+        b"{0}\r\n",
+        b")\r\nA0001 OK done\r\n",
+        b"\r\n* BYE\r\n",
+        b"\"",
+        b"\\\"",
+        b"((((",
+        b"))))\r\n",
+        b"{12",
+        b"}\r\n",
+        b"\r",
+        b"\n",
+        b"NIL",
+        b" {7}\r\nabc",
+    ];
+    let n = if thorough { 60_000 } else { 6_000 } / shards;
+    for _ in 0..n {
+        // content
+        let mut content: Vec<u8> = vec![];
+        let pre = rng.usize(40);
+        for i in 0..pre {
+            content.push(b'a' + (i % 26) as u8);
+        }
+        let la: &&[u8] = rng.pick(LOOKALIKES);
+        let la_end = content.len() + la.len();
+        content.extend_from_slice(la);
+        let post = match rng.range(0, 3) {
+            0 => 0,
+            1 => rng.usize(20),
+            2 => rng.usize(300),
+            _ => rng.usize(9000),
+        };
+        for i in 0..post {
+            content.push(b'k' + (i % 11) as u8);
+        }
+        if rng.chance(1, 4) {
+            let la2: &&[u8] = rng.pick(LOOKALIKES);
+            content.extend_from_slice(la2);
+        }
+        // position
+        let head: &[u8] = match rng.range(0, 5) {
+            0 => b"* 12 FETCH (RFC822 ",
+            1 => b"* 12 FETCH (BODY[] ",
+            2 => b"* 12 FETCH (RFC822.HEADER ",
+            3 => b"* 12 FETCH (UID 5 BODY[1.2]<0> ",
+            4 => b"* 12 FETCH (ENVELOPE (NIL ",
+            _ => b"* 12 FETCH (RFC822.TEXT ",
+        };
+        let tail: &[u8] = if head.ends_with(b"(NIL ") { b" NIL NIL NIL NIL NIL NIL NIL NIL))\r\n" } else { b" FLAGS (\\Seen))\r\n" };
+        let mut s: Vec<u8> = head.to_vec();
+        s.extend_from_slice(format!("{{{}}}\r\n", content.len()).as_bytes());
+        let lit_start = s.len();
+        s.extend_from_slice(&content);
+        s.extend_from_slice(tail);
+        for _ in 0..rng.range(0, 3) {
+            let e: &Vec<u8> = rng.pick(resp);
+            if e.len() < 200 {
+                s.extend_from_slice(e);
+            }
+        }
+        if rng.bool() {
+            s.extend_from_slice(b"A0007 OK FETCH completed\r\n");
+        }
+        // schedule: a cut inside the literal after the look-alike, plus random cuts
+        let mut cuts: Vec<usize> = vec![];
+        if rng.chance(3, 4) {
+            let lo = lit_start + la_end;
+            let hi = lit_start + content.len();
+            cuts.push(if hi > lo { lo + rng.usize(hi - lo + 1) } else { lo });
+        }
+        for _ in 0..rng.usize(4) {
+            cuts.push(rng.usize(s.len() + 1));
+        }
+        cuts.sort();
+        cuts.dedup();
+        let mut sc = vec![];
+        let mut prev = 0;
+        for c in cuts {
+            if c > prev && c <= s.len() {
+                sc.push(RDir::Go(c - prev));
+                prev = c;
+            }
+            if rng.chance(1, 6) {
+                sc.push(RDir::Pending);
+            }
+        }
+        run_frames_case(ctx, &s, sc, rng.bool(), "lookalike-literal");
+    }
+}
+
 fn rule_of(prop: &str) -> &'static str {
     match prop {
+        "C08" => "through the codec: FETCH responses whose literal (RFC822, BODY[], RFC822.HEADER, BODY[1.2]<0>, envelope subject, RFC822.TEXT) holds protocol look-alikes ({n}CRLF with small / huge n, forged completions, quotes, parentheses, bare CR / LF), followed by further responses, under chunkings that cut inside the literal after the look-alike; frames compared with the one-shot parse and with the model's frames",
         "C04" => "byte streams of 1..12 generated responses (optionally truncated / followed by a malformed line) under: every response alone with a silent peer at every single cut (exhaustive), all two-cut chunkings of short streams (exhaustive), random chunkings down to single bytes with Pending injections; non-trivial = distinct (effective read trace, poll count)",
         "C05" | "C06" | "C11" => "sessions of 1..6 builder-produced commands (argument sizes across the 8 KiB boundary) against a scripted server (0..5 untagged responses, look-alike and foreign completions, matching completion, unsolicited data, EOF / garbage / silence), random read / write / flush schedules with partial transfers and Pending, streams abandoned at a random poll; non-trivial = distinct effective trace",
         _ => "",
@@ -976,6 +1073,7 @@ fn main() {
                 let mut rng = Rng::new(seed.wrapping_mul(1000003).wrapping_add(shard as u64));
                 match prop.as_str() {
                     "C04" => run_c04(&mut ctx, &mut rng, resp, thorough, shard, shards),
+                    "C08" => run_c08_codec(&mut ctx, &mut rng, resp, thorough, shards),
                     "C05" | "C06" | "C11" => {
                         let n = if thorough { 200_000 } else { 6_000 } / shards;
                         for _ in 0..n {
